@@ -90,6 +90,7 @@ type World struct {
 	covered  []covEntry
 	stateFn  func() string
 	states   hashSet
+	gateSync int64 // race builds: harness gates (WaitUntil) acquire what every thread published at its last Point
 	endSync  int64 // race builds: every thread releases into it when it ends, the driver acquires it
 	opTrace  []string
 	traceOps bool
@@ -197,6 +198,14 @@ func (w *World) newThread(name string, f func()) *Thread {
 			return
 		}
 		defer func() {
+			// Runs last, also when stopNow() (Goexit) is reached from inside this handler (thread exit -> schedule ->
+			// deadlock): the execution is reported finished only after every deferred call of this thread has run.
+			defer func() {
+				if w.closeOnExit && t == w.initiator {
+					w.closeOnExit = false
+					close(w.doneCh)
+				}
+			}()
 			e := recover() // nil on normal return and on Goexit
 			t.done = true
 			RaceReleaseMerge(unsafe.Pointer(&w.endSync))
@@ -204,9 +213,6 @@ func (w *World) newThread(name string, f func()) *Thread {
 				// either this thread is being unwound by teardown, or it initiated the teardown itself
 				if t != w.initiator {
 					w.exited <- struct{}{}
-				} else if w.closeOnExit {
-					w.closeOnExit = false
-					close(w.doneCh)
 				}
 				return
 			}
@@ -289,6 +295,9 @@ func Yield() {
 func WaitUntil(label string, cond func() bool) {
 	if w := cur; w != nil && !w.aborting {
 		w.Point(label, cond)
+		// A harness gate stands for a spin on an atomic flag in a real program: what the other threads did before the
+		// condition became true is visible to the waiter. (Race builds; every thread publishes at every Point.)
+		RaceAcquire(unsafe.Pointer(&w.gateSync))
 	}
 }
 
@@ -303,6 +312,9 @@ func (w *World) Point(label string, ready func() bool) {
 	t := w.cur
 	t.label = label
 	t.ready = ready
+	if RaceOn {
+		RaceReleaseMerge(unsafe.Pointer(&w.gateSync)) // see WaitUntil
+	}
 	w.schedule()
 	t.ready = nil
 }
